@@ -15,6 +15,10 @@ CHECKS = {
    text="kira::Parameter is driven update by update on a simulated audio clock (arbitrary partitions, start times immediate / delayed / on a simulated clock that pauses) for every tweenable type, next to the closed form start + (target - start) * ease(elapsed / duration): old value before the start, closed form during (one update of timing slack only where a start time has to be reached), exactly the target from the end on (strict when updates align with the duration), never outside [start, target], retargeting from the current value, previous_value() == last value(). A quarter of the cases read the per-frame gain envelope of a DC sound instead.",
    note="Clock start times are served by a MockInfo rebuilt per update; tolerance 1e-9 (f64 types) / 1e-5 (f32 types); quaternion slerp is not modelled.",
    technique="deterministic simulation on a simulated clock against a closed-form reference model; seeded partitions and command histories"),
+ "C03": dict(level="exploration", design="3 C03",
+   text="A static or streaming sound is driven callback by callback on a simulated audio clock under a seeded history of pause / resume / resume_at (delayed, clock, clock that vanishes) / stop / seek commands with arbitrary tweens. The documented 7-state automaton is run twice, with every timed step as early and as late as 'to within one callback' allows; the state reported by the handle must lie on the forward path between the two, Stopped is absorbing, finished() agrees with it, finite sounds reach Stopped once the least possible audio consumption exceeds their length. The gain envelope is read off a looping DC sound: on the fade curve (one callback of slack) when the fade starts from a known value, monotone otherwise, exact silence and frozen position while Paused / WaitingToResume / Stopped, exactly unity when Playing. The thorough tier adds every command sequence of length <= 3 over an 8-command alphabet x 3 timing classes as a workload source.",
+   note="Sound driven directly through the public Sound trait (MockInfo clock); at most one life-cycle command per gap between callbacks; unloading / slot reuse after Stopped is checked by C08 through the manager.",
+   technique="deterministic simulation against the documented life-cycle automaton run with earliest and latest admissible timing (specification-automaton refinement), envelope read from a DC probe signal"),
  "C04": dict(level="exploration", design="3 C04",
    text="The real Box<dyn Sound> of a static sound is driven chunk by chunk on a simulated audio clock next to an executable reference (integer transport + 4-point Hermite at the accumulated position). Seeded exploration over length, slice, start, loop region, reverse, rate, sample-rate pair, chunk partition and seek / loop commands at chunk boundaries, plus (thorough) the complete small-scope space length <= 6 as a workload source. Bit-exact comparison at rate 1, tolerance 2e-5 otherwise; poison frames outside the slice; end detection and reported position against the model.",
    note="Reference model written from the documentation and the property text; Info is an empty MockInfo; after a seek only what the property promises (within one frame) is demanded. One open known finding: rate 1 is not bit-exact at sample rates with sr*(1/sr) != 1.0 (those rates are then not generated for the bit-exact clause).",
